@@ -79,6 +79,19 @@ def run(chk: core.Check, tier: str, seed: int) -> None:
     for q in INVALID:
         for nb in gen.neighbours(q, rng, 4):
             recs.append(record(jp, None, nb, [1], core.enc_value([1])))
+    # a result or compiled-query cache keyed too coarsely: on ONE environment, a valid query is used first,
+    # then texts that differ from it only by blank space, case or one character (most of them invalid)
+    shared = jp.JSONPathEnvironment()
+    d = {"a": [1, {"b": 2}], "b": {"a": 1}, "A": 0}
+    ed = core.enc_value(d)
+    for q in ["$.a", "$..b", "$.a[?@.b == 2]", "$['a']", "$[?@ == 1]", "$.a[1].b", "$.b.a"] + rng.sample(corpus.SEEDS, 10):
+        for env in (shared, None):
+            recs.append(record(jp, env, q, d, ed))
+            for v in (q + " ", " " + q, q + "\n", "\t" + q, q.upper(), q.replace("a", "A"), q + "\x0c", q.strip("$"), q + q[1:]):
+                recs.append(record(jp, env, v, d, ed))
+            for nb in gen.neighbours(q, rng, 5):
+                recs.append(record(jp, env, nb, d, ed))
+            recs.append(record(jp, env, q, d, ed))
     # evaluation-time errors: recursion limit
     deep = [[[[[[1]]]]], {"a": {"a": {"a": {"a": 1}}}}, [1, [2, [3, [4]]], {"a": [[[]]]}], [[1], [2]]]
     for lim in (1, 2, 3, 5):
